@@ -69,12 +69,18 @@ CFG = {
             "registered name / description / default / CLI) saved, loaded, compared (structure, artifacts, trees, "
             "bytes). Fixed: 25 save-between histories (edit kind x parameter kind), all producer-name forms, special "
             "values per kind, File payloads (empty, 1 byte, all 256 byte values), deep / empty / special metadata. "
+            "FILE-LEVEL path: two histories in three (and the fixed save-between / warm-cache / continuation ones) are "
+            "persisted by a real generator.GraphSaver to a file in a temporary directory - Save() after every edit as the "
+            "edit server's endpoints do, or at the reads and after the last edit - and the fresh application loads that "
+            "file read back from disk; the file's bytes are one more save digest, before and after the continuation. "
             "distinct by op list; non-trivial = at least two nodes and one saved dependency",
     "trusted": ["sha256 digests of saves/artifacts computed by the harness (Go crypto/sha256)",
                 "reading the saved file back into a tree is done by the harness with encoding/json + base64",
                 "the 'modulo' second case of an over-read history is produced by truncating the File values "
                 "through Instance.UpdateParameter in the reloaded instance; everything is then compared in full (the same "
                 "cut is applied before the third load of a continuation's save is compared)",
+                "generator.GraphSaver is constructed by the harness through reflect + unsafe (unexported fields app, "
+                "savePath), as the edit server does with -autosave",
                 "graphs built in code are judged on the implementation alone (CFile cases); the model does not cover "
                 "AddProducer / the dependency walk of buildIDsForNode"],
     "modelled": ["strings.ToLower/EqualFold on ASCII only; strconv.Atoi on unsigned digit strings for saved dependency "
